@@ -94,6 +94,7 @@ type Upstream struct {
 	eventDispatcher *eventDispatcher
 
 	connState *connStatus
+	connGen   uint64 // このストリームのwireConnが属する接続の世代
 	state     *streamState
 
 	upstreamChunkResultChs map[uint32]chan *message.UpstreamChunkResult
@@ -329,7 +330,7 @@ func (u *Upstream) run(isResume bool) error {
 	}
 	eg.Go(func() error {
 		u.connState.cond.L.Lock()
-		for !u.connState.IsWithoutLock(connStatusReconnecting) {
+		for !u.connState.IsWithoutLock(connStatusReconnecting) && u.connState.GenerationWithoutLock() == u.connGen {
 			select {
 			case <-ctx.Done():
 				u.connState.cond.L.Unlock()
